@@ -194,6 +194,43 @@ GROUPS.append({"name": "hi", "label": "proved", "harness": "harness/C04/lenfns.c
                "functions": ["bignum.c:sexp_bignum_hi"], "min_obligations": 5, "timeout": 200,
                "bound": "none: loop closed by a loop contract (invariant + decreases), length symbolic up to 2^28 words",
                "instances": [{"name": "any_length"}], "expected_loops": {"sexp_bignum_hi": 1}})
+# C04.1: fixnum fast paths of the VM arithmetic opcodes (extracted from vm.c on every run)
+import os as _os
+from vlib import core as _core, vmextract as _vmx
+_VMDIR = _os.path.join(_core.BUILD, "C04", "vm")
+_VMFLAGS = ["-I@BUILD@/shim_small", "-DVERIF_KINDFOLD=1"]
+ARITH_OPS = {"ADD": 1, "SUB": 2, "MUL": 3, "QUOTIENT": 5, "REMAINDER": 6, "LT": 7, "LE": 8, "EQN": 9}
+
+
+def prepare(tier):
+    fl = [f.replace("@BUILD@", _core.BUILD) for f in _VMFLAGS]
+    _vmx.write_ops(_VMDIR, sorted(ARITH_OPS), fl)
+    # macros are expanded at extraction time: the MUL wrapper with the uninterpreted product is a separate extraction
+    _vmx.write_ops(_VMDIR + "_uf", ["MUL"], fl + ["-DVERIF_UF_SMUL=1"])
+
+
+from groups import C01 as _c01
+for _op, _code in sorted(ARITH_OPS.items()):
+    _d = {"OP": _op, "NARGS": 2, "EFFECT": "(-1)", "WORDS": 0, "CLS1": 6, "CLS2": 6, "ARITH": _code}
+    _g = {"name": "vm_" + _op, "label": "proved", "harness": "harness/vm/generic.c", "entry": "h_op",
+          "flags": _VMFLAGS + ["-I@BUILD@/C04/vm"], "link_src": ["harness/vm/stubs.c"], "unwind": 24,
+          "units": [{"repo": "sexp.c", "remove_bodies": _c01.SEXP_STUBBED}],
+          "functions": ["vm.c:sexp_apply:case SEXP_OP_%s (fixnum fast path)" % _op], "min_obligations": 5, "timeout": 300, "mem_gb": 3,
+          "assumptions": ["generic entry points sexp_add/sub/mul/quotient/remainder/compare are recording stubs (hand-over targets); sexp_fixnum_to_bignum is a contract stub"],
+          "bound": "none: all pairs of fixnums (loop-free)",
+          "instances": [{"name": "fix_fix", "defs": _d}]}
+    if _op == "MUL":
+        _g["instances"] = [{"name": "fix_fix", "defs": dict(_d, VERIF_UF_SMUL=1)}]
+        _g["flags"] = _VMFLAGS + ["-I@BUILD@/C04/vm_uf"]
+        _g["assumptions"] = _g["assumptions"] + ["the signed 64x64->128 machine product is an uninterpreted function shared by code and specification: what is decided is the fixnum/bignum classification of the product and the hand-over"]
+    if _op in ("QUOTIENT", "REMAINDER"):
+        # 64-bit division equalities do not finish on any back end: constant divisors (all dividends) and small operand pairs
+        _g["label"] = "bounded"
+        _g["bound"] = "divisor in {1,-1,2,-2,3,-3,7,10,2^31,MIN_FIXNUM,MAX_FIXNUM,0} with ANY dividend, plus all operand pairs below 2^10 in magnitude"
+        _g["instances"] = [{"name": "div_%s" % str(dv).replace("-", "m").replace("(", "").replace(")", "").replace("L", "").replace("<", "s"), "defs": dict(_d, DIVISOR=dv)}
+                           for dv in ("1", "(-1)", "2", "(-2)", "3", "(-3)", "7", "10", "(1L<<31)", "SEXP_MIN_FIXNUM", "SEXP_MAX_FIXNUM", "0")]
+        _g["instances"].append({"name": "small_pairs", "defs": dict(_d, SMALL_OPERANDS=10)})
+    GROUPS.append(_g)
 META = {
  "trusted_base": ["CBMC 6.11.0 front end, goto-instrument loop-contract instrumentation, SAT back end (MiniSat)",
                   "harness/prelude.h substitutions: exact-field accessors, sign test via shift (CBMC folds (sexp_sint_t)p < 0 to false), 128-bit shim",
